@@ -353,6 +353,50 @@ def correspond(ctx):
     return fails
 
 
+def deviant_session(ctx, label, actions, conf, seed):
+    """One history in which a peer that holds the keys misbehaves (or the configurations differ): nothing leaves
+    main_loop; afterwards no dead entry is left in either table, idle iterations run without error, and - once the
+    timers have cleaned up - a fresh negotiation completes (the daemons are not wedged)."""
+    rep = {'deviant': label, 'actions': actions, 'conf': conf, 'seed': seed}
+    with Pair(seed=seed, **conf) as p:
+        try:
+            p.run(actions)
+            p.drain()
+            n0 = len(p.sim.log_records)
+            for _ in range(3):
+                p.do(['tick', 1])
+            errors = [m for lv, m in p.sim.log_records[n0:] if 'Unexpected error while processing an event' in m]
+            dead = [(n, int(s.state)) for n in 'AB' for s in p.ep(n).controller.ike_sas if int(s.state) == 21]
+            if errors or dead:
+                return [Failure('property', 'loop:dead-ike-sa-in-table',
+                                f'{label}: after the history {len(dead)} DELETED IKE_SA(s) are listed {dead} and '
+                                f'{len(errors)} of 3 idle loop iterations failed ({errors[:1]})', rep)]
+            ctx.case({'deviant': label}, nontrivial=True, sample=False)
+            # let retransmissions give up and half-open leftovers expire, then negotiate afresh
+            for _ in range(40):
+                p.do(['tick', 30])
+                p.drain()
+            for sa in list(p.A.controller.ike_sas) + list(p.B.controller.ike_sas):
+                pass
+            p.do(['acquire', 'A', 90])
+            p.drain()
+            for _ in range(6):
+                if p.established():
+                    break
+                p.do(['tick', 5])
+                p.drain()
+        except LoopEscape as ex:
+            return [Failure('property', 'loop:escaped-exception', f'{label}: {ex.exc!r}', rep)]
+        # one-shot deviations and hostile reinjections must not prevent a later negotiation; configurations that are
+        # incompatible by design (asym/, rsa/wrong_key) can never establish and are exempt from this clause
+        if label.startswith(('dev', 'edge')) and not p.established():
+            return [Failure('property', 'loop:no-progress-after-misbehaviour',
+                            f'{label}: 20 virtual minutes after the history a fresh ACQUIRE does not lead to an '
+                            f'established IKE_SA pair: A {[int(s.state) for s in p.A.controller.ike_sas]} B '
+                            f'{[int(s.state) for s in p.B.controller.ike_sas]}', rep)]
+    return []
+
+
 def oracle(ctx, deep):
     fails = []
     for i, name in enumerate(LEGIT if deep else LEGIT[:3]):
@@ -373,6 +417,12 @@ def oracle(ctx, deep):
             fails += hostile_session(ctx, ctx.rng.getrandbits(32), legit, 0, kfail=kf)
             ctx.count('fault:netlink')
     fails += failure_burst(ctx, ctx.rng.getrandbits(32))
+    from props import hdl
+    for label, acts, conf, seed, skip in hdl.deviant_set(deep, ctx.seed):
+        fails += deviant_session(ctx, label, acts, conf, seed)
+        ctx.count('deviant-session')
+        if len(fails) > 3:
+            break
     return fails
 
 
@@ -451,6 +501,8 @@ def dead_entry_regression(ctx):
 def replay(ctx, obj):
     if obj.get('burst'):
         return failure_burst(ctx, obj['seed'])
+    if 'deviant' in obj:
+        return deviant_session(ctx, obj['deviant'], obj['actions'], obj['conf'], obj['seed'])
     if 'legit' in obj:
         return hostile_session(ctx, obj['seed'], obj['legit'], obj['per_step'], obj.get('sendto_fail'),
                                obj.get('kfail'))
